@@ -412,7 +412,8 @@ class Inliner(object):
                         return h
                 elif ctx.get('clsname') and f.value.id == ctx['clsname'] and h.kind in ('classmethod', 'staticmethod'):
                     return h
-            if h is None and f.value.id != ctx.get('recv'):
+            if h is None:
+                # a uniquely named method of another (base) class, called on self or on any other object
                 h = getattr(self, 'foreign', {}).get(f.attr)
                 if h is not None and h.node is not ctx['fn']:
                     return h
